@@ -32,9 +32,28 @@ def roles(evts):
     return out
 
 
+def check_default_is_neutral(ctx, P, rule="E5.neutral"):
+    """`ElGamalCiphertext::default()` is the neutral element of the component-wise sum (sums are accumulated from it):
+    derived, or hand-written with every component `Default::default()` / `Group::identity()`."""
+    n = 0
+    for k, f in sorted(P.fns.items()):
+        if not (f.name == "default" and f.impl_trait == "Default" and (f.impl_self_adt or "").startswith("ElGamalCiphertext")):
+            continue
+        n += 1
+        if f.from_expansion:
+            ctx.ob(rule, k, True, "derived Default: every component is its type's default (the identity point)", where=where(f))
+            continue
+        r = B.peel(strip_sites(evaluate(f).ret))
+        comps = list(r.a[1]) if r.op == "agg" else []
+        ok = bool(comps) and all(B.peel(c).op == "call" and B.cname(B.peel(c)) in ("Default::default", "Group::identity") and not B.peel(c).a[1] for c in comps)
+        ctx.ob(rule, k, ok, "hand-written Default of the ciphertext: components %s (want the identity / default of each)" % [show(B.peel(c), 3) for c in comps], where=where(f))
+    ctx.ob(rule + ".anchor", "ElGamalCiphertext::default", n >= 1, "%d Default impl(s) of ElGamalCiphertext found" % n)
+
+
 def run(ctx):
     P = ctx.P
     pinned = spec("pinned.json")
+    check_default_is_neutral(ctx, P)
     pr = ctx.need_fn("E3.transcript", "BlsElGamal::seal_scalar_with_proof")
     vf = ctx.need_fn("E3.transcript", "BlsElGamal::verify_proof")
     want = [("new", pinned["merlin"]["protocol"], None), ("msg", "dst", pinned["salts"]["elgamal"]), ("msg", "base point", "G"), ("msg", "pk", "pk"), ("msg", "generator", "generator"), ("msg", "c1", "c1"), ("msg", "c2", "c2"), ("msg", "r1", "r1"), ("msg", "r2", "r2"), ("challenge", pinned["merlin"]["challenge"], pinned["merlin"]["challenge_len"])]
